@@ -173,7 +173,10 @@ def setup_worker(rec, ctx):
 
 def _pool(rng, kind=None):
     import sympy as sp
-    kind = kind or rng.choice(["range", "half", "singleton", "dup", "sparse"])
+    kind = kind or rng.choice(["range", "half", "singleton", "dup", "sparse", "all_equal"])
+    if kind == "all_equal":  # one value repeated: a sum of identical terms, not a singleton
+        v = sp.Rational(int(rng.integers(-3, 4)), int(rng.choice([1, 2])))
+        return kind, [v] * int(rng.integers(2, 4))
     if kind == "range":
         lo = int(rng.integers(-2, 2)); return kind, [sp.Integer(lo + t) for t in range(int(rng.integers(2, 4)))]
     if kind == "half":
